@@ -107,7 +107,7 @@ def _state(rng, qd, L, qL=None, q0=0):
 def arithmetic_case(ctx, idx, rng):
     L = int(rng.choice([1, 2, 3, 4]))
     d = int(rng.choice([2, 3]))
-    qd = _qd(rng, d, str(rng.choice(['zero', 'unsorted', 'pairs'])))
+    qd = _qd(rng, d, str(rng.choice(['zero', 'unsorted', 'pairs', 'huge'])))
     a = _state(rng, qd, L)
     b = _state(rng, qd, L, qL=int(a.qD[-1][0]))
     A = gen.rand_mpo(rng, qd, L, Dmax=2)
